@@ -5,6 +5,10 @@
   Random decisions (which window, which permutation) are not re-implemented: `stepAllowed` is the
   executable relation "from this state the code may return this batch" (DESIGN §5.3).  For the
   deterministic modes (plain, sort only) exactly one batch is allowed.
+
+  Arithmetic: item sizes and counts are unbounded `Nat`, but the two products the code forms with
+  `usize::saturating_mul` (`BatchLimit::limit`, the buffer bound `batch_limit.saturating_mul(prefetch_factor)`)
+  saturate at `usizeMax` here as well, so that every comparison has the outcome the code computes.
 -/
 import TuModel.Model.Basic
 namespace Tu
@@ -26,14 +30,23 @@ structure BCfg where
 def BCfg.lim (c : BCfg) : Nat := max 1 c.limit
 def BCfg.pf (c : BCfg) : Nat := max 1 c.prefetch
 
-/-- `BatchLimit::limit` for a running `(count, max size)` -/
-def limOf (padded : Bool) (count maxSize : Nat) : Nat := if padded then count * maxSize else count
+/-- `usize::MAX` of the 64-bit target -/
+def usizeMax : Nat := 18446744073709551615
+
+/-- `BatchLimit::limit` for a running `(count, max size)`, as the code computes it:
+`TotalItemSize(count, max_length) => count.saturating_mul(*max_length)` (the padded size saturates at `usize::MAX`);
+`BatchSize(count) => count` -/
+def limOf (padded : Bool) (count maxSize : Nat) : Nat := if padded then min (count * maxSize) usizeMax else count
+
+/-- the mathematical value of the batch limit (exact product, no saturation); used in statements only, see
+`Props/C06u.lean` (`limOf_eq_min`, `limOf_gt_iff`, `limOf_le_iff`) for its relation to `limOf` -/
+def limOfExact (padded : Bool) (count maxSize : Nat) : Nat := if padded then count * maxSize else count
 
 def maxSize : List Item → Nat
   | [] => 0
   | x :: xs => max x.size (maxSize xs)
 
-/-- `BatchLimit::from_items(items).limit()` -/
+/-- `BatchLimit::from_items(items).limit()` (saturating, see `limOf`) -/
 def itemsLimit (padded : Bool) (l : List Item) : Nat := limOf padded l.length (maxSize l)
 
 /-- `batch_from`: consume `src` in order; returns (batch, remainder, unconsumed).  The first item is
@@ -47,7 +60,8 @@ def batchFromAux (padded : Bool) (limit : Nat) : List Item → List Item → Nat
 def batchFrom (padded : Bool) (limit : Nat) (src : List Item) : List Item × Option Item × List Item :=
   batchFromAux padded limit src [] 0 0
 
-/-- fill the buffer: `while buffer_limit.limit() <= batch_limit * prefetch_factor { pull }` -/
+/-- fill the buffer: `while buffer_limit.limit() <= cap { pull }`; `stepAllowed` passes
+`cap = batch_limit.saturating_mul(prefetch_factor)`, and `limit()` is the saturating `limOf` -/
 def fillBuf (padded : Bool) (cap : Nat) : List Item → List Item → Nat → Nat → List Item × List Item
   | [], buf, _, _ => (buf, [])
   | x :: xs, buf, c, m =>
@@ -105,7 +119,8 @@ def stepAllowed (cfg : BCfg) (st : BState) (batch : List Item) : Option BState :
     let (b, rem, rest') := batchFrom cfg.padded cfg.lim (st.buf ++ st.rest)
     if b == batch then some { rest := rest', buf := rem.toList } else none
   else
-    let (buf, rest') := fillBuf cfg.padded (cfg.lim * cfg.pf) st.rest st.buf st.buf.length (maxSize st.buf)
+    -- the buffer bound is `batch_limit.saturating_mul(prefetch_factor)`
+    let (buf, rest') := fillBuf cfg.padded (min (cfg.lim * cfg.pf) usizeMax) st.rest st.buf st.buf.length (maxSize st.buf)
     if buf.isEmpty then none else
     if cfg.sort then
       let sorted := sortBySize buf
